@@ -198,3 +198,66 @@ def innermost_frame(exc) -> str:
     best = os.path.basename(fn) + ":" + tb.tb_frame.f_code.co_name
     tb = tb.tb_next
   return best
+
+
+def fork_call(fn, timeout):
+  """Runs fn() in a forked child (os.fork, so it also works inside daemonic workers) and returns
+  ("ok", value) | ("exc", text) | ("timeout", None). The child never returns into the caller."""
+  import pickle
+  import select
+  import time
+  import traceback
+  r, w = os.pipe()
+  pid = os.fork()
+  if pid == 0:
+    code = 0
+    try:
+      os.close(r)
+      signal.setitimer(signal.ITIMER_REAL, 0)
+      signal.signal(signal.SIGALRM, signal.SIG_DFL)
+      try:
+        payload = pickle.dumps(("ok", fn()))
+      except BaseException:  # pylint: disable=broad-except
+        payload = pickle.dumps(("exc", traceback.format_exc()))
+      with os.fdopen(w, "wb") as f:
+        f.write(payload)
+    except BaseException:  # pylint: disable=broad-except
+      code = 1
+    finally:
+      os._exit(code)
+  os.close(w)
+  chunks = []
+  deadline = time.monotonic() + timeout
+  status = "ok"
+  try:
+    while True:
+      left = deadline - time.monotonic()
+      if left <= 0:
+        status = "timeout"
+        break
+      ready, _, _ = select.select([r], [], [], min(left, 1.0))
+      if ready:
+        b = os.read(r, 1 << 20)
+        if not b:
+          break
+        chunks.append(b)
+  except BaseException:
+    status = "timeout"  # e.g. the soft watchdog fired in the caller: the child must not outlive it
+    raise
+  finally:
+    os.close(r)
+    if status == "timeout":
+      try:
+        os.kill(pid, signal.SIGKILL)
+      except OSError:
+        pass
+    try:
+      os.waitpid(pid, 0)
+    except OSError:
+      pass
+  if status == "timeout":
+    return ("timeout", None)
+  try:
+    return pickle.loads(b"".join(chunks))
+  except Exception:  # pylint: disable=broad-except
+    return ("exc", "child died without a result")
